@@ -40,6 +40,11 @@ CLAIMED = {
    note="Aliasing (shared bitarrays) is covered by probes only; bitarray slicing is modelled by evens/odds. No axioms.",
    technique="Coq invariant over edit sequences (fold_left) + model-vs-implementation replay",
    design="6 C18"),
+ "C17": dict(
+   text="Proof + exhaustive/differential exploration. Model/Parser.v is the parser step for step over ASCII characters. Proved for all inputs: print/parse round trip; every sparse specification (dense letters, letters at any non-empty digit string position, optional size) parses to exactly its expansion or is rejected when a position does not increase / the size is too small; accepted texts use only the notation's alphabet (refuted for the snapshot's int()-based digits, proved for the repaired code); missing-number rejection; answer independent of fuel (termination); k-local expansion = distinct translates of the padded generators, NoDup, all of length n, in first-occurrence order. Per run: all texts of length <=4 over an 8-symbol alphabet, generated specs, inserted out-of-alphabet characters, random ASCII, non-ASCII digits; k-local lists; implementation vs model and vs the property's clauses.",
+   note="Non-ASCII text is outside the model (only required to be rejected). Python int() on digit strings is modelled as decimal evaluation; CPython's digit-count limit is not modelled. No axioms.",
+   technique="Coq proofs about a step-for-step parser model + exhaustive small-alphabet correspondence",
+   design="6 C17"),
  "C04": dict(
    text="Proof: Coq theorems C04_product/commute/adjoint/conj/reject hold for every n and every pair of strings, about a bit-level model of PauliString.sign/commutes_with/multiply/adjoint_map/complex_conj and the Kronecker-product matrices over Z[i]. The model is tied to /repo on every run by a correspondence run: all 16^n pairs n<=3 (n<=4 thorough) plus random pairs up to n=64 and all length mismatches, implementation vs extracted model, and numpy matrices multiplied out for n<=3.",
    note="Trusted: Coq kernel, extraction (ExtrOcamlBasic), OCaml driver, Python harness; numpy kron/@ taken as the matrices. No axioms (Print Assumptions: closed).",
